@@ -1,6 +1,7 @@
 package meta
 
 import (
+	"bytes"
 	"encoding/binary"
 	"fmt"
 	"strconv"
@@ -278,7 +279,10 @@ func syncContainerCounters(b *bbolt.Bucket, force bool) error {
 		if deadContainer {
 			continue
 		}
-		if inGarbage(cInt, obj) != statusAvailable {
+		// any garbage mark (a redundant one too) or a tombstone takes the object
+		// out of the payload counter, see the marking code
+		garbageKey := mkGarbageKey(obj)
+		if k, _ := cInt.Seek(garbageKey); bytes.Equal(k, garbageKey) || inGarbage(cInt, obj) != statusAvailable {
 			continue
 		}
 		sizeRaw := getObjAttribute(cInt, obj, object.FilterPayloadSize)
